@@ -386,7 +386,7 @@ Proof. induction l as [|x l IH]; intros nid; cbn [clones map eval]; [|rewrite IH
 Lemma clones_ids l : forall nid, map eid (clones nid l) = zseq nid (length l).
 Proof.
   induction l as [|x l IH]; intros nid; [reflexivity|].
-  cbn [clones map eid length]. rewrite IH. unfold zseq. cbn [seq map].
+  cbn [clones map eid length]. rewrite IH. rewrite !zseq_map_seq. cbn [seq map].
   rewrite <- seq_shift, map_map. f_equal; [lia|]. apply map_ext. intros. lia.
 Qed.
 
